@@ -90,6 +90,8 @@ struct Outcome {
     min_switch: f64,
     min_term: f64,
     buffer: String,
+    int_cones: Vec<SupportedConeT<f64>>,
+    wall_s: f64,
     n_int: usize,
     m_int: usize,
     nnzP: usize,
@@ -148,7 +150,9 @@ fn run(p: &Prob, cfg: &Cfg, target: Target, scratch: &str) -> RunResult {
         }
         let (sym, pd) = clarabel::verif_hooks::skel::cone_flags(&solver);
         trace::start();
+        let t0 = std::time::Instant::now();
         let ok = guarded(|| solver.solve());
+        let wall_s = t0.elapsed().as_secs_f64();
         let events = trace::take();
         if ok.is_none() {
             let _ = tx.send(RunResult::SolvePanic);
@@ -189,6 +193,8 @@ fn run(p: &Prob, cfg: &Cfg, target: Target, scratch: &str) -> RunResult {
             nnzA: solver.data.A.nnz(),
             ncones: solver.data.cones.len(),
             removed: clarabel::verif_hooks::presolver_dims(&solver.data).map(|(mf, mr, _)| mf - mr),
+            int_cones: solver.data.cones.clone(),
+            wall_s,
         };
         let _ = tx.send(RunResult::Done(Box::new(out)));
     });
@@ -287,6 +293,43 @@ fn header_field(buf: &str, key: &str) -> Option<usize> {
         }
     }
     None
+}
+
+/// the "    : <Kind> = count,  numel = ..." lines of the configuration header, as
+/// (kind, count, listed sizes, elided?)
+fn header_cone_lines(buf: &str) -> Vec<(String, usize, Vec<usize>, bool)> {
+    let mut out = vec![];
+    for line in buf.lines() {
+        let t = line.trim_start();
+        if let Some(rest) = t.strip_prefix(": ") {
+            let mut it = rest.splitn(2, '=');
+            let kind = it.next().unwrap_or("").trim().to_string();
+            let rest = it.next().unwrap_or("");
+            let mut parts = rest.splitn(2, ',');
+            let count: usize = parts.next().unwrap_or("").trim().parse().unwrap_or(usize::MAX);
+            let tail = parts.next().unwrap_or("");
+            let elided = tail.contains("...");
+            let nums: Vec<usize> = tail.split(|c: char| !c.is_ascii_digit()).filter(|x| !x.is_empty()).filter_map(|x| x.parse().ok()).collect();
+            out.push((kind, count, nums, elided));
+        }
+    }
+    out
+}
+/// what the header must say for a cone list (independent re-statement of the documented
+/// format: all sizes when there are at most five cones of a kind, else the first four and the last)
+fn expected_cone_lines(cones: &[SupportedConeT<f64>]) -> Vec<(String, usize, Vec<usize>, bool)> {
+    let kinds = ["Zero", "Nonnegative", "SecondOrder", "Exponential", "Power", "GenPower", "PSDTriangle"];
+    let mut out = vec![];
+    for (k, name) in kinds.iter().enumerate() {
+        let sizes: Vec<usize> = cones.iter().filter(|c| match c {
+            ZeroConeT(_) => k == 0, NonnegativeConeT(_) => k == 1, SecondOrderConeT(_) => k == 2, ExponentialConeT() => k == 3,
+            PowerConeT(_) => k == 4, GenPowerConeT(_, _) => k == 5, PSDTriangleConeT(_) => k == 6 }).map(cone_dim).collect();
+        if sizes.is_empty() { continue; }
+        let (listed, elided) = if sizes.len() <= 5 { (sizes.clone(), false) } else {
+            let mut l = sizes[..4].to_vec(); l.push(*sizes.last().unwrap()); (l, true) };
+        out.push((name.to_string(), sizes.len(), listed, elided));
+    }
+    out
 }
 
 fn mask_time(buf: &str) -> String {
@@ -508,6 +551,21 @@ fn main() {
                     && hc == Some(o.m_int) && hp == Some(o.nnzP) && ha == Some(o.nnzA) && hv == Some(o.n_int);
                 sink.record(json!({"direct": {"prop": "C20", "ok": ok, "what": "configuration header reports the true internal dimensions",
                     "input": {"label": p.label, "settings": cfg.json(), "header": [hv, hc, hp, ha, hk], "expected": [p.q.len(), p.b.len() - dropped, triuP, p.A.nnz() - dropped_nnz, o.ncones]}}}));
+                // C20: per-kind cone lines of the header against the solver's internal cone list
+                {
+                    let got = header_cone_lines(&o.buffer);
+                    let want = expected_cone_lines(&o.int_cones);
+                    sink.record(json!({"direct": {"prop": "C20", "ok": got == want, "what": "configuration header lists the cone counts and sizes of every cone kind",
+                        "input": {"label": p.label, "settings": cfg.json(), "problem": p.to_json(), "printed": format!("{:?}", got), "expected": format!("{:?}", want)}}}));
+                }
+                // C04: the clock read by the time-limit test advances from head to head
+                {
+                    let times: Vec<f64> = o.events.iter().filter_map(|e| if let Event::PreLimit { solve_time, .. } = e { Some(*solve_time) } else { None }).collect();
+                    let nondecr = times.windows(2).all(|w| w[1] >= w[0]);
+                    let advances = times.len() < 3 || times[times.len() - 1] > times[0];
+                    sink.record(json!({"direct": {"prop": "C04", "ok": nondecr && advances, "what": "the solve time seen by the time-limit test advances with the iterations",
+                        "input": {"label": p.label, "settings": cfg.json(), "problem": p.to_json(), "times": times}}}));
+                }
                 if let Some(rem) = o.removed {
                     let printed = o.buffer.lines().find_map(|l| l.strip_prefix("presolve: removed ").and_then(|r| r.split_whitespace().next()).and_then(|x| x.parse::<usize>().ok()));
                     sink.record(json!({"direct": {"prop": "C20", "ok": printed == Some(rem) && rem == dropped, "what": "presolve reduction count in the header", "input": {"label": p.label, "printed": printed, "removed": rem, "expected": dropped}}}));
@@ -583,6 +641,31 @@ fn main() {
         for (t, name) in [(Target::Buffer, "buffer"), (Target::Stream, "stream"), (Target::File, "file")] {
             if let RunResult::Done(o) = run(p, &quiet, t, &scratch) {
                 sink.record(json!({"direct": {"prop": "C20", "ok": o.buffer.is_empty(), "what": format!("verbose = false writes nothing to the {}", name), "input": {"label": p.label, "written": o.buffer.len()}}}));
+            }
+        }
+    }
+
+    // ------------------------------------------------------------ C04: the time limit bites, printing or not
+    if !replaying {
+        for k in 0..(if thorough { 12 } else { 4 }) {
+            // a problem that needs far longer than the limit: many iterations of a large KKT system
+            let n = 120 + 20 * k;
+            let cones = vec![NonnegativeConeT(n), SecondOrderConeT(40), NonnegativeConeT(n / 2)];
+            let p = planted(&mut rng, n, cones, 2);
+            for verbose in [true, false] {
+                let mut unlimited = Cfg::default();
+                unlimited.verbose = verbose;
+                let full = match run(&p, &unlimited, Target::Buffer, &scratch) { RunResult::Done(o) => o, _ => continue };
+                let mut c = Cfg::default();
+                c.verbose = verbose;
+                // a limit the setup alone does not exhaust but the iterations do: a quarter of the
+                // unlimited wall time (the clock the solver reads includes set-up time)
+                c.time_limit = (full.wall_s * 0.25).max(1e-6);
+                if let RunResult::Done(o) = run(&p, &c, Target::Buffer, &scratch) {
+                    let ok = o.status == 8 || (full.status != 1);
+                    sink.record(json!({"direct": {"prop": "C04", "ok": ok, "what": format!("a solve that needs longer than time_limit stops with MaxTime (verbose = {})", verbose),
+                        "input": {"label": p.label, "settings": c.json(), "unlimited_wall_s": full.wall_s, "unlimited_iterations": full.iterations, "status": o.status, "iterations": o.iterations}}}));
+                }
             }
         }
     }
